@@ -2,7 +2,7 @@ SPECIFICATION Spec
 CONSTANTS
   Variants = {"best"}
   Relays = {1, 2, 3}
-  ProvSet <- MCProvMid
+  FetchSet = {}
   Values = {0, 1, 2}
   CfgSet <- MCCfgOne
   TableSet = {"A"}
@@ -14,4 +14,4 @@ CONSTANTS
   MaxAuctions = 1
   MaxOpen = 1
   Deviation = "none"
-INVARIANTS TypeOK WinnerIsArgmax OnlyEligibleWin ProvidersOfferedWinner NoWinnerIffNone ParticipationSound ArrivedConsidered CacheRight ServedRight HistoryShape
+INVARIANTS TypeOK ClientOfAddress WinnerIsArgmax OnlyEligibleWin ProvidersOfferedWinner NoWinnerIffNone ParticipationSound ArrivedConsidered CacheRight ServedRight HistoryShape
